@@ -82,6 +82,9 @@ Proof.
   destruct (bytes_eqb (r_name r) n); [discriminate|]. rewrite IH by assumption. f_equal. lia.
 Qed.
 
+Lemma nth_app_last {A} (l : list A) x d : nth (length l) (l ++ [x]) d = x.
+Proof. induction l as [|y l IH]; cbn; auto. Qed.
+
 (* ---------------------------------------------------------------- protected is insensitive to ... *)
 (* protection only looks at the file itself and at its own row *)
 Lemma protected_ext w w' n :
@@ -121,7 +124,7 @@ Proof. reflexivity. Qed.
 
 Lemma protected_put_row w i r' n :
   same_name (dbs w) i r' ->
-  (keeps (get_row (dbs w) i) r' \/ safe r' \/ r_name (get_row (dbs w) i) <> n \/ (i < 1)%nat) ->
+  (keeps (get_row (dbs w) i) r' \/ safe r' \/ r_name (get_row (dbs w) i) <> n) ->
   protected w n -> protected (set_db w (put_row (dbs w) i r')) n.
 Proof.
   intros Hname Hkind Hp.
@@ -140,14 +143,13 @@ Proof.
     assert (G : nth (i - 1) (set_nth (rows (dbs w)) (i - 1) r') (empty_row []) = r')
       by (apply nth_set_nth; exact Hin).
     rewrite G. destruct Hp as (_ & _ & Hp). specialize (Hp j Hj).
-    destruct Hkind as [(Hg & Ho & Hs)|[Hsafe|[Hne|Hlt]]].
+    destruct Hkind as [(Hg & Ho & Hs)|[Hsafe|Hne]].
     + unfold row_protects in *. unfold get_row in Hp. rewrite E in Hp.
       change (nth (i - 1) (rows (dbs w)) (empty_row [])) with (get_row (dbs w) i) in Hp.
       rewrite Hg, Ho, Hs. exact Hp.
     + unfold row_protects. destruct Hsafe as [-> | ->]; cbn; [reflexivity|now rewrite orb_true_r].
     + contradiction.
-    + pose proof (find_row_bounds _ _ _ _ Hj). lia.
-  - left. split; [exact Hj|]. unfold get_row. rewrite rows_put_row. now apply nth_set_nth_other.
+  - left. split; [exact Hj|]. unfold get_row. rewrite rows_put_row. apply nth_set_nth_other. lia.
 Qed.
 
 (* from_name: either nothing changes or an empty row (not generated) is appended *)
@@ -165,9 +167,8 @@ Proof.
     + (* n has no row yet: the new row, if it is n's, is an empty one *)
       rewrite find_row_app_none in Hj by assumption. cbn in Hj.
       destruct (bytes_eqb m n); [|discriminate]. inversion Hj; subst j. right.
-      unfold get_row. cbn [rows]. replace (1 + length (rows (dbs w)) - 1)%nat with (length (rows (dbs w))) by lia.
-      rewrite app_nth2 by lia. replace (length (rows (dbs w)) - length (rows (dbs w)))%nat with O by lia.
-      cbn. reflexivity.
+      unfold get_row. cbn [rows]. replace (S (length (rows (dbs w))) - 1)%nat with (length (rows (dbs w))) by lia.
+      rewrite nth_app_last. reflexivity.
 Qed.
 
 Lemma from_name_rows_prefix d m :
